@@ -955,3 +955,287 @@ Qed.
 Lemma d9_without_reset_refuted :
   convert_gen false (enc_tree_fields (tree_of_fields d9_value)) <> Ok (tree_of_fields d9_value).
 Proof. vm_compute. discriminate. Qed.
+
+(* ====================================================================================== *)
+(* convert on ARBITRARY bytes: no panic, consumed length within the buffer, budget never    *)
+(* exhausted                                                                               *)
+(* ====================================================================================== *)
+Definition good_rd {A} (buf : bytes) (r : res (A * N)) : Prop :=
+  match r with
+  | Ok (_, l) => 1 <= l <= len buf
+  | Err e => e <> e_fuel
+  | _ => False
+  end.
+
+Lemma need_cases buf k e :
+  (need buf k e = Ok tt /\ k <= len buf) \/ (need buf k e = Err e /\ len buf < k).
+Proof. unfold need. destruct (N.ltb_spec (len buf) k); [right|left]; split; auto. Qed.
+
+Ltac need_split buf k e :=
+  let H := fresh "Hn" in let L := fresh "Hl" in
+  destruct (need_cases buf k e) as [[H L]|[H L]]; rewrite H; cbn [bind good_rd].
+
+Lemma r_bool_good buf : good_rd buf (r_bool buf).
+Proof. unfold r_bool. need_split buf 1 e_read_bool; [lia|discriminate]. Qed.
+Lemma r_byte_good buf : good_rd buf (r_byte buf).
+Proof. unfold r_byte. need_split buf 1 e_read_byte; [lia|discriminate]. Qed.
+Lemma r_i16_good buf : good_rd buf (r_i16 buf).
+Proof. unfold r_i16. need_split buf 2 e_read_i16; [lia|discriminate]. Qed.
+Lemma r_i32_good buf : good_rd buf (r_i32 buf).
+Proof. unfold r_i32. need_split buf 4 e_read_i32; [lia|discriminate]. Qed.
+Lemma r_i64_good buf : good_rd buf (r_i64 buf).
+Proof. unfold r_i64. need_split buf 8 e_read_i64; [lia|discriminate]. Qed.
+Lemma r_double_good buf : good_rd buf (r_double buf).
+Proof. unfold r_double. need_split buf 8 e_read_double; [lia|discriminate]. Qed.
+Lemma r_string_good buf : good_rd buf (r_string buf).
+Proof.
+  unfold r_string, r_binary_gen, r_i32.
+  destruct (need_cases buf 4 e_read_i32) as [[Hn Hl]|[Hn Hl]]; rewrite Hn; cbn [bind good_rd]; [|discriminate].
+  destruct (Z.ltb_spec (i32 (unbe (take 4 buf))) 0); [cbn [good_rd]; discriminate|].
+  destruct (N.ltb_spec (len buf) (4 + Z.to_N (i32 (unbe (take 4 buf))))); cbn [good_rd]; [discriminate|lia].
+Qed.
+Lemma r_field_begin_good buf : good_rd buf (r_field_begin buf).
+Proof.
+  unfold r_field_begin.
+  destruct (need_cases buf 1 e_read_field) as [[Hn Hl]|[Hn Hl]]; rewrite Hn; cbn [bind good_rd]; [|discriminate].
+  match goal with |- context [if ?c then _ else _] => destruct c end; [cbn [good_rd]; lia|].
+  destruct (need_cases buf 3 e_read_field) as [[Hn' Hl']|[Hn' Hl']]; rewrite Hn'; cbn [bind good_rd]; [lia|discriminate].
+Qed.
+Lemma r_list_begin_gen_good e buf : e <> e_fuel ->
+  match r_list_begin_gen e buf with
+  | Ok (_, size, l) => (0 <= size)%Z /\ l = 5 /\ 5 <= len buf
+  | Err e' => e' <> e_fuel
+  | _ => False
+  end.
+Proof.
+  intros He. unfold r_list_begin_gen.
+  destruct (need_cases buf 5 e) as [[Hn Hl]|[Hn Hl]]; rewrite Hn; cbn [bind]; [|assumption].
+  repeat split; auto. lia.
+Qed.
+Lemma r_map_begin_good buf :
+  match r_map_begin buf with
+  | Ok (_, _, size, l) => (0 <= size)%Z /\ l = 6 /\ 6 <= len buf
+  | Err e' => e' <> e_fuel
+  | _ => False
+  end.
+Proof.
+  unfold r_map_begin.
+  destruct (need_cases buf 6 e_read_map) as [[Hn Hl]|[Hn Hl]]; rewrite Hn; cbn [bind]; [|discriminate].
+  repeat split; auto. lia.
+Qed.
+
+Lemma length_drop (l : N) (cur : bytes) : l <= len cur -> length (drop l cur) = (length cur - N.to_nat l)%nat.
+Proof. intros _. unfold drop. apply skipn_length. Qed.
+
+Definition good_loop (lo blen : N) (r : res (list ufield * N)) : Prop :=
+  match r with
+  | Ok (_, n) => lo <= n <= blen
+  | Err e => e <> e_fuel
+  | _ => False
+  end.
+
+Lemma elems_loop_good rd size blen : forall lf cur pos i acc,
+  (forall sub id, (length sub <= length cur)%nat -> good_rd sub (rd sub id)) ->
+  pos + len cur = blen -> (length cur < lf)%nat ->
+  good_loop pos blen (elems_loop rd lf blen cur pos i size acc).
+Proof.
+  induction lf as [|lf' IH]; intros cur pos i acc Hrd Hinv Hlf; [lia|].
+  cbn [elems_loop]. destruct (i <? size); [|cbn [good_loop]; lia].
+  rewrite slice_at_ok by lia. cbn [bind].
+  pose proof (Hrd cur (int16_of i) (le_n _)) as Hg.
+  destruct (rd cur (int16_of i)) as [[x l]|e|w|]; cbn [bind good_rd good_loop] in *; auto.
+  assert (Hd : length (drop l cur) = (length cur - N.to_nat l)%nat) by (apply length_drop; lia).
+  specialize (IH (drop l cur) (pos + l) (i + 1) (x :: acc)).
+  assert (Hg' : good_loop (pos + l) blen (elems_loop rd lf' blen (drop l cur) (pos + l) (i + 1) size (x :: acc))).
+  { apply IH.
+    - intros sub id Hs. apply Hrd. lia.
+    - rewrite drop_len by lia. lia.
+    - unfold len in Hg. lia. }
+  destruct (elems_loop rd lf' blen (drop l cur) (pos + l) (i + 1) size (x :: acc)) as [[xs n]|e|w|];
+    cbn [good_loop] in *; auto. lia.
+Qed.
+
+Lemma pairs_loop_good rdk rdv size blen : forall lf cur pos i acc,
+  (forall sub id, (length sub <= length cur)%nat -> good_rd sub (rdk sub id)) ->
+  (forall sub id, (length sub <= length cur)%nat -> good_rd sub (rdv sub id)) ->
+  pos + len cur = blen -> (length cur < lf)%nat ->
+  good_loop pos blen (pairs_loop rdk rdv lf blen cur pos i size acc).
+Proof.
+  induction lf as [|lf' IH]; intros cur pos i acc Hrk Hrv Hinv Hlf; [lia|].
+  cbn [pairs_loop]. destruct (i <? size); [|cbn [good_loop]; lia].
+  rewrite slice_at_ok by lia. cbn [bind].
+  pose proof (Hrk cur (int16_of i) (le_n _)) as Hg.
+  destruct (rdk cur (int16_of i)) as [[k l]|e|w|]; cbn [bind good_rd good_loop] in *; auto.
+  assert (Hd : length (drop l cur) = (length cur - N.to_nat l)%nat) by (apply length_drop; lia).
+  assert (Hdl : len (drop l cur) = len cur - l) by (apply drop_len; lia).
+  rewrite slice_at_ok by lia. cbn [bind].
+  assert (Hle1 : (length (drop l cur) <= length cur)%nat) by lia.
+  pose proof (Hrv (drop l cur) (int16_of i) Hle1) as Hg2.
+  destruct (rdv (drop l cur) (int16_of i)) as [[v l2]|e|w|]; cbn [bind good_rd good_loop] in *; auto.
+  assert (Hd2 : length (drop l2 (drop l cur)) = (length (drop l cur) - N.to_nat l2)%nat) by (apply length_drop; lia).
+  assert (Hg' : good_loop (pos + l + l2) blen
+           (pairs_loop rdk rdv lf' blen (drop l2 (drop l cur)) (pos + l + l2) (i + 1) size (v :: k :: acc))).
+  { apply IH.
+    - intros sub id Hs. apply Hrk. lia.
+    - intros sub id Hs. apply Hrv. lia.
+    - rewrite drop_len by lia. lia.
+    - unfold len in Hg, Hg2. lia. }
+  destruct (pairs_loop rdk rdv lf' blen (drop l2 (drop l cur)) (pos + l + l2) (i + 1) size (v :: k :: acc)) as [[xs n]|e|w|];
+    cbn [good_loop] in *; auto. lia.
+Qed.
+
+Lemma fields_loop_good reset rd blen : forall lf cur pos field acc,
+  (forall f0 sub t id, (length sub < length cur)%nat -> good_rd sub (rd f0 sub t id)) ->
+  pos + len cur = blen -> (length cur < lf)%nat ->
+  good_loop (pos + 1) blen (fields_loop reset rd lf blen cur pos field acc).
+Proof.
+  induction lf as [|lf' IH]; intros cur pos field acc Hrd Hinv Hlf; [lia|].
+  cbn [fields_loop].
+  rewrite slice_at_ok by lia. cbn [bind].
+  pose proof (r_field_begin_good cur) as Hg.
+  destruct (r_field_begin cur) as [[[t fid] l]|e|w|]; cbn [bind good_rd good_loop] in *; auto.
+  destruct (t =? thrift_STOP)%Z; [cbn [good_loop]; lia|].
+  assert (Hd : length (drop l cur) = (length cur - N.to_nat l)%nat) by (apply length_drop; lia).
+  assert (Hdl : len (drop l cur) = len cur - l) by (apply drop_len; lia).
+  rewrite slice_at_ok by lia. cbn [bind].
+  assert (Hlt : (length (drop l cur) < length cur)%nat) by (unfold len in Hg; lia).
+  pose proof (Hrd (if reset then uf_zero else field) (drop l cur) t fid Hlt) as Hg2.
+  destruct (rd (if reset then uf_zero else field) (drop l cur) t fid) as [[f' l2]|e|w|];
+    cbn [bind good_rd good_loop] in *; auto.
+  assert (Hd2 : length (drop l2 (drop l cur)) = (length (drop l cur) - N.to_nat l2)%nat) by (apply length_drop; lia).
+  assert (Hg' : good_loop (pos + l + l2 + 1) blen
+           (fields_loop reset rd lf' blen (drop l2 (drop l cur)) (pos + l + l2) f' (f' :: acc))).
+  { apply IH.
+    - intros f0 sub t' id' Hs. apply Hrd. lia.
+    - rewrite drop_len by lia. lia.
+    - unfold len in Hg, Hg2. lia. }
+  destruct (fields_loop reset rd lf' blen (drop l2 (drop l cur)) (pos + l + l2) f' (f' :: acc)) as [[xs n]|e|w|];
+    cbn [good_loop] in *; auto. lia.
+Qed.
+
+Lemma read_field_good reset : forall fuel f0 buf ty id,
+  (length buf < fuel)%nat -> good_rd buf (read_field reset fuel f0 buf ty id).
+Proof.
+  induction fuel as [|fuel' IH]; intros f0 buf ty id Hfuel; [lia|].
+  destruct (Z.eq_dec ty T_BOOL) as [->|N1].
+  { rewrite read_field_bool. pose proof (r_bool_good buf) as Hg.
+    destruct (r_bool buf) as [[v l]|e|w|]; cbn [bind good_rd] in *; auto. }
+  destruct (Z.eq_dec ty T_BYTE) as [->|N2].
+  { rewrite read_field_byte. pose proof (r_byte_good buf) as Hg.
+    destruct (r_byte buf) as [[v l]|e|w|]; cbn [bind good_rd] in *; auto. }
+  destruct (Z.eq_dec ty T_I16) as [->|N3].
+  { rewrite read_field_i16. pose proof (r_i16_good buf) as Hg.
+    destruct (r_i16 buf) as [[v l]|e|w|]; cbn [bind good_rd] in *; auto. }
+  destruct (Z.eq_dec ty T_I32) as [->|N4].
+  { rewrite read_field_i32. pose proof (r_i32_good buf) as Hg.
+    destruct (r_i32 buf) as [[v l]|e|w|]; cbn [bind good_rd] in *; auto. }
+  destruct (Z.eq_dec ty T_I64) as [->|N5].
+  { rewrite read_field_i64. pose proof (r_i64_good buf) as Hg.
+    destruct (r_i64 buf) as [[v l]|e|w|]; cbn [bind good_rd] in *; auto. }
+  destruct (Z.eq_dec ty T_DOUBLE) as [->|N6].
+  { rewrite read_field_double. pose proof (r_double_good buf) as Hg.
+    destruct (r_double buf) as [[v l]|e|w|]; cbn [bind good_rd] in *; auto. }
+  destruct (Z.eq_dec ty T_STRING) as [->|N7].
+  { rewrite read_field_string. pose proof (r_string_good buf) as Hg.
+    destruct (r_string buf) as [[v l]|e|w|]; cbn [bind good_rd] in *; auto. }
+  destruct (Z.eq_dec ty T_SET) as [->|N8].
+  { rewrite read_field_set. pose proof (r_list_begin_gen_good e_read_set buf ltac:(discriminate)) as Hg.
+    fold r_set_begin in Hg.
+    destruct (r_set_begin buf) as [[[et size] l]|e|w|]; cbn [bind good_rd] in *; auto.
+    destruct Hg as (Hs & -> & Hl).
+    destruct (Z.ltb_spec size 0) as [Hneg|_]; [lia|].
+    assert (Hd : length (drop 5 buf) = (length buf - 5)%nat) by (apply length_drop; lia).
+    pose proof (elems_loop_good (fun sub i => read_field reset fuel' uf_zero sub et i) (Z.to_N size) (len buf)
+                  (S (length buf)) (drop 5 buf) 5 0 []) as Hg.
+    destruct (elems_loop _ _ _ _ _ _ _ _) as [[xs n]|e|w|]; cbn [bind good_rd good_loop] in *;
+      (lapply Hg; [clear Hg; intros Hg|intros sub i Hsub; apply IH; unfold len in Hl; lia]);
+      (lapply Hg; [clear Hg; intros Hg|rewrite drop_len; lia]);
+      (lapply Hg; [clear Hg; intros Hg|lia]); auto; lia. }
+  destruct (Z.eq_dec ty T_LIST) as [->|N9].
+  { rewrite read_field_list. pose proof (r_list_begin_gen_good e_read_list buf ltac:(discriminate)) as Hg.
+    fold r_list_begin in Hg.
+    destruct (r_list_begin buf) as [[[et size] l]|e|w|]; cbn [bind good_rd] in *; auto.
+    destruct Hg as (Hs & -> & Hl).
+    destruct (Z.ltb_spec size 0) as [Hneg|_]; [lia|].
+    assert (Hd : length (drop 5 buf) = (length buf - 5)%nat) by (apply length_drop; lia).
+    pose proof (elems_loop_good (fun sub i => read_field reset fuel' uf_zero sub et i) (Z.to_N size) (len buf)
+                  (S (length buf)) (drop 5 buf) 5 0 []) as Hg.
+    destruct (elems_loop _ _ _ _ _ _ _ _) as [[xs n]|e|w|]; cbn [bind good_rd good_loop] in *;
+      (lapply Hg; [clear Hg; intros Hg|intros sub i Hsub; apply IH; unfold len in Hl; lia]);
+      (lapply Hg; [clear Hg; intros Hg|rewrite drop_len; lia]);
+      (lapply Hg; [clear Hg; intros Hg|lia]); auto; lia. }
+  destruct (Z.eq_dec ty T_MAP) as [->|N10].
+  { rewrite read_field_map. pose proof (r_map_begin_good buf) as Hg.
+    destruct (r_map_begin buf) as [[[[kt vt] size] l]|e|w|]; cbn [bind good_rd] in *; auto.
+    destruct Hg as (Hs & -> & Hl).
+    destruct (Z.ltb_spec (size * 2) 0) as [Hneg|_]; [lia|].
+    assert (Hd : length (drop 6 buf) = (length buf - 6)%nat) by (apply length_drop; lia).
+    pose proof (pairs_loop_good (fun sub i => read_field reset fuel' uf_zero sub kt i)
+                  (fun sub i => read_field reset fuel' uf_zero sub vt i) (Z.to_N size) (len buf)
+                  (S (length buf)) (drop 6 buf) 6 0 []) as Hg.
+    destruct (pairs_loop _ _ _ _ _ _ _ _ _) as [[xs n]|e|w|]; cbn [bind good_rd good_loop] in *;
+      (lapply Hg; [clear Hg; intros Hg|intros sub i Hsub; apply IH; unfold len in Hl; lia]);
+      (lapply Hg; [clear Hg; intros Hg|intros sub i Hsub; apply IH; unfold len in Hl; lia]);
+      (lapply Hg; [clear Hg; intros Hg|rewrite drop_len; lia]);
+      (lapply Hg; [clear Hg; intros Hg|lia]); auto; lia. }
+  destruct (Z.eq_dec ty T_STRUCT) as [->|N11].
+  { rewrite read_field_struct.
+    pose proof (fields_loop_good reset (read_field reset fuel') (len buf) (S (length buf)) buf 0 uf_zero []) as Hg.
+    destruct (fields_loop _ _ _ _ _ _ _ _) as [[xs n]|e|w|]; cbn [bind good_rd good_loop] in *;
+      (lapply Hg; [clear Hg; intros Hg|intros f1 sub t' i Hsub; apply IH; lia]);
+      (lapply Hg; [clear Hg; intros Hg|lia]);
+      (lapply Hg; [clear Hg; intros Hg|lia]); auto; lia. }
+  rewrite read_field_other by assumption. cbn [good_rd]. discriminate.
+Qed.
+
+Definition good_top (r : res (list ufield)) : Prop :=
+  match r with Ok _ => True | Err e => e <> e_fuel | _ => False end.
+
+Lemma convert_loop_good reset fuel blen : forall lf cur pos acc,
+  (length cur < fuel)%nat ->
+  pos + len cur = blen -> (length cur < lf)%nat ->
+  good_top (convert_loop reset lf fuel blen cur pos acc).
+Proof.
+  induction lf as [|lf' IH]; intros cur pos acc Hfuel Hinv Hlf; [lia|].
+  cbn [convert_loop]. destruct (pos =? blen); [exact I|].
+  rewrite slice_at_ok by lia. cbn [bind].
+  pose proof (r_field_begin_good cur) as Hg.
+  destruct (r_field_begin cur) as [[[t fid] l]|e|w|]; cbn [bind good_rd good_top] in *; auto.
+  assert (Hd : length (drop l cur) = (length cur - N.to_nat l)%nat) by (apply length_drop; lia).
+  assert (Hdl : len (drop l cur) = len cur - l) by (apply drop_len; lia).
+  rewrite slice_at_ok by lia. cbn [bind].
+  assert (Hlt : (length (drop l cur) < fuel)%nat) by lia.
+  pose proof (read_field_good reset fuel uf_zero (drop l cur) t fid Hlt) as Hg2.
+  destruct (read_field reset fuel uf_zero (drop l cur) t fid) as [[f l2]|e|w|];
+    cbn [bind good_rd good_top] in *; auto.
+  assert (Hd2 : length (drop l2 (drop l cur)) = (length (drop l cur) - N.to_nat l2)%nat) by (apply length_drop; lia).
+  apply IH.
+  - lia.
+  - rewrite drop_len by lia. lia.
+  - unfold len in Hg, Hg2. lia.
+Qed.
+
+Lemma convert_gen_good reset b : good_top (convert_gen reset b).
+Proof.
+  unfold convert_gen. destruct (len b =? 0); [cbn; discriminate|].
+  apply convert_loop_good; lia.
+Qed.
+
+(* ConvertUnknownFields never panics, whatever the bytes (C03 reuses this) *)
+Lemma convert_total : forall b, safe (convert b).
+Proof.
+  intros b. pose proof (convert_gen_good true b) as H. unfold convert.
+  destruct (convert_gen true b); cbn [good_top safe] in *; auto.
+Qed.
+(* ... and the model's recursion / loop budgets are never exhausted: Err e_fuel is unreachable *)
+Lemma convert_fuel_suffices : forall b, convert b <> Err e_fuel.
+Proof.
+  intros b E. pose proof (convert_gen_good true b) as H. unfold convert in E. rewrite E in H. now apply H.
+Qed.
+(* one value: consumed length is between 1 and the buffer length, whatever the bytes and the type *)
+Lemma read_field_bounded : forall fuel f0 buf ty id f l,
+  (length buf < fuel)%nat -> read_field true fuel f0 buf ty id = Ok (f, l) -> 1 <= l <= len buf.
+Proof.
+  intros fuel f0 buf ty id f l Hf E. pose proof (read_field_good true fuel f0 buf ty id Hf) as H.
+  rewrite E in H. exact H.
+Qed.
